@@ -611,6 +611,24 @@ func TestTTests(t *testing.T) {
 	})
 }
 
+// TestMeanCIGrid: the customary confidence levels at every sample size 2..40 (a table of
+// critical values for "the usual" levels would be exercised here and nowhere else).
+func TestMeanCIGrid(t *testing.T) {
+	if ev.Replaying() {
+		return
+	}
+	ev.Rule(rule)
+	for n := 2; n <= 40; n++ {
+		xs := make([]float64, n)
+		for i := range xs {
+			xs[i] = 10 + float64((i*7)%n) + 0.25*float64(i%3)
+		}
+		for _, c := range []float64{0.5, 0.8, 0.9, 0.95, 0.975, 0.98, 0.99, 0.995, 0.999, 0.05, 0.1} {
+			checkMeanCI.Run(t, &CICase{Xs: xs, C: c})
+		}
+	}
+}
+
 func TestMeanCI(t *testing.T) {
 	ev.Rule(rule)
 	ev.Rapid(t, "c04-meanci", 8000, 100000, func(rt *rapid.T) {
